@@ -105,8 +105,18 @@ func (p *polling) onPollRequest(ctx *types.HttpContext) {
 		verifhook.Point("polling.onPollRequest.beforePublish", p)
 	}
 	// published only now: a writer goroutine that is still around from the previous
-	// cycle (a close packet racing with a data batch) may pick the request up at once
-	p.req.Store(ctx)
+	// cycle (a close packet racing with a data batch) may pick the request up at once.
+	// Two polls arriving together both pass the test above; only one may become the
+	// outstanding poll, the other one is the overlapping request.
+	if !p.req.CompareAndSwap(nil, ctx) {
+		ctx.RemoveListener("close", onClose)
+		ctx.Cleanup = nil
+		polling_log.Debug("request overlap")
+		p.OnError("overlap from client", nil)
+		ctx.SetStatusCode(http.StatusBadRequest)
+		ctx.Write(nil)
+		return
+	}
 
 	p.SetWritable(true)
 	p.Emit("ready")
@@ -146,7 +156,14 @@ func (p *polling) onDataRequest(ctx *types.HttpContext) {
 	if verifhook.Enabled {
 		verifhook.Point("polling.onDataRequest.beforePublish", p)
 	}
-	p.dataCtx.Store(ctx)
+	// two data requests arriving together both pass the test above: only one may become
+	// the outstanding data request
+	if !p.dataCtx.CompareAndSwap(nil, ctx) {
+		p.OnError("data request overlap from client", nil)
+		ctx.SetStatusCode(http.StatusBadRequest)
+		ctx.Write(nil)
+		return
+	}
 
 	var cleanup types.Callable
 
